@@ -92,6 +92,8 @@ class Zsim:
         self.extra_env = extra_env
         self.slow = None
         self.own_tmp = tmpdir is None
+        self.big_stack = "/asan/" in exe
+        self.plain = None
         os.makedirs(os.path.join(HERE, "build"), exist_ok=True)
         self.tmpdir = tmpdir or tempfile.mkdtemp(prefix="zsim-", dir=os.path.join(HERE, "build"))
         self.env = dict(os.environ)
@@ -110,11 +112,32 @@ class Zsim:
 
     def start(self):
         self.errlog = open(os.path.join(self.tmpdir, "worker-stderr.%d" % os.getpid()), "ab")
+        big = self.big_stack
+
+        def limits():
+            # The sanitized build has much larger stack frames.  Recursion whose
+            # depth is bounded by the parser's own limits must not overflow just
+            # because of the instrumentation, so that build gets a large stack;
+            # the plain build keeps the default 8 MiB, which is what users have.
+            import resource
+            if big:
+                try:
+                    resource.setrlimit(resource.RLIMIT_STACK, (2 << 30, resource.RLIM_INFINITY))
+                except (ValueError, OSError):
+                    pass
+
         self.proc = subprocess.Popen([self.exe], stdin=subprocess.PIPE, stdout=subprocess.PIPE,
-                                     stderr=self.errlog, env=self.env, bufsize=1 << 16)
+                                     stderr=self.errlog, env=self.env, bufsize=1 << 16,
+                                     preexec_fn=limits)
         line = self.proc.stdout.readline()
         if not line.startswith(b"=ready"):
             raise RuntimeError("zsim did not start: %r" % line)
+
+    def run_plain(self, plan):
+        """The same plan on the non-sanitized build with the default stack."""
+        if self.plain is None:
+            self.plain = Zsim(self.exe.replace("/asan/", "/plain/"))
+        return self.plain.run(plan)
 
     def run_slow_unwind(self, plan):
         """The same plan in a worker whose allocator records full (slow
@@ -129,6 +152,9 @@ class Zsim:
         if self.slow is not None:
             self.slow.close()
             self.slow = None
+        if self.plain is not None:
+            self.plain.close()
+            self.plain = None
         if self.proc is not None:
             try:
                 self.proc.stdin.close()
